@@ -73,8 +73,13 @@ class Gen:
             return f, '%s %s %s' % (op, ta, tb), None
         if op in ('max3', 'min3', 'maxl', 'minl'):
             fa, ta, la = self.tree(depth - 1, want, True, True)
-            fb, tb, lb = self.tree(depth - 1, la if r.random() < 0.7 else 1, True)
-            fc, tc, lc = self.tree(depth - 1, la if r.random() < 0.7 else 1, True)
+            # lengths of the further arguments: the common length, 1 (broadcast) or - sometimes - any length (a mismatch after a scalar
+            # argument must still be refused)
+            pick = lambda: la if r.random() < 0.6 else (1 if r.random() < 0.6 else r.choice([1, 2, 3]))
+            wb, wc = pick(), pick()
+            if la and la > 1 and r.random() < 0.2: wb, wc = 1, r.choice([k for k in (2, 3) if k != la] or [2])      # vector, scalar, other vector
+            fb, tb, lb = self.tree(depth - 1, wb, True)
+            fc, tc, lc = self.tree(depth - 1, wc, True)
             fn = M.max if op[:3] == 'max' else M.min
             t = '%s2 %s %s2 %s %s' % (op[:3], ta, op[:3], tb, tc)
             if op[3] == '3': return (lambda: fn(fa(), fb(), fc())), t, None
